@@ -184,9 +184,14 @@ class LifeRun:
             self.app.shutdown()
         elif kind == 'eof':
             self.face.stop.set_result(None)       # the transport's run() returns, nobody called shutdown()
+        elif kind == 'error':
+            self.face.stop.set_exception(ConnectionAbortedError('connection aborted'))   # the transport's run() raises
         else:
             self.main.cancel()
         self._run()
+
+    def do_DownError(self):
+        self.do_Down('error')
 
     def do_CancelDraining(self):
         self.main.cancel()
@@ -228,6 +233,8 @@ class LifeRun:
                     p['res'] = 'true' if r is True else 'false' if r is False else 'other:%r' % (r,)
                 elif isinstance(e, ConnectionRefusedError):
                     p['res'] = 'openerr'
+                elif isinstance(e, ConnectionAbortedError):
+                    p['res'] = 'runerr'
                 elif isinstance(e, KeyError):
                     p['res'] = 'aftererr'
                 else:
